@@ -64,6 +64,9 @@ type Case struct {
 	NPages int    `json:"npages"`
 	File   string `json:"file"`            // ok | missing | truncated | wrongext
 	Blank  []int  `json:"blank,omitempty"` // 1-based pages without any content (never all of them)
+	// TwoCol: 1-based pages that carry, besides their markers, a block of 8 rows in two columns (22 fragments on the
+	// page: laid out in columns, while the other pages are single-column)
+	TwoCol []int  `json:"two_col,omitempty"`
 	Steps  []Step `json:"steps"`
 }
 
@@ -84,7 +87,11 @@ func (c Case) blank() map[int]bool {
 	return m
 }
 
-func buildPDF(n int, blank map[int]bool) []byte {
+func buildPDF(n int, blank map[int]bool, twoCol ...int) []byte {
+	cols := map[int]bool{}
+	for _, p := range twoCol {
+		cols[p] = true
+	}
 	doc := pdfw.Doc{Fonts: []pdfw.FontSpec{{Res: "F1", Kind: "t1win", Base: "Helvetica"}}}
 	for p := 1; p <= n; p++ {
 		pg := pdfw.Page{ID: p, MediaBox: [4]float64{0, 0, pageWidth(p), 792}}
@@ -108,6 +115,14 @@ func buildPDF(n int, blank map[int]bool) []byte {
 		}
 		ft := footerText(p)
 		pg.Lines = append(pg.Lines, pdfw.Line{Font: 0, Size: 10, X: 280, Y: 30, Bytes: []byte(ft), Text: ft})
+		if cols[p] {
+			for k := 0; k < 8; k++ {
+				y := float64(520 - 11*p - 13*k)
+				l, r := fmt.Sprintf("lw%dx%d", p, k), fmt.Sprintf("rw%dx%d", p, k)
+				pg.Lines = append(pg.Lines, pdfw.Line{Font: 0, Size: 10, X: float64(72 + 7*p), Y: y, Bytes: []byte(l), Text: l},
+					pdfw.Line{Font: 0, Size: 10, X: 350, Y: y, Bytes: []byte(r), Text: r})
+			}
+		}
 		if p%2 == 1 {
 			// the page ends with the graphics state changed and not restored (legal: it ends with the page)
 			pg.Trailer = "1 0 0 1 13 -9 cm 3 Tc 80 Tz 17 TL"
@@ -120,6 +135,10 @@ func buildPDF(n int, blank map[int]bool) []byte {
 const headerText = "Quarterly Report Draft"
 
 func footerText(p int) string { return fmt.Sprintf("Page %d", p) }
+
+func isColumnWord(s string) bool {
+	return len(s) >= 5 && (s[:2] == "lw" || s[:2] == "rw") && s[2] >= '1' && s[2] <= '9' && strings.Contains(s, "x")
+}
 
 func isMarginal(s string) bool { return s == headerText || strings.HasPrefix(s, "Page ") }
 
@@ -366,7 +385,8 @@ func groundTruth(op string, r result, selAll []int, n int, blank map[int]bool) e
 		}
 		var got []string
 		for _, f := range r.Value.([]string) {
-			if t := f[:strings.Index(f, "@")]; !isMarginal(t) {
+			// (the words of a two-column block are judged by the per-page clause below, not against the markers)
+			if t := f[:strings.Index(f, "@")]; !isMarginal(t) && !isColumnWord(t) {
 				got = append(got, t)
 			}
 		}
@@ -449,7 +469,7 @@ func checkCase(c Case) error {
 	}
 	defer os.RemoveAll(dir)
 	blank := c.blank()
-	pdf := buildPDF(c.NPages, blank)
+	pdf := buildPDF(c.NPages, blank, c.TwoCol...)
 	pageText := map[string]string{} // options + page -> Text() of that page alone
 	path := filepath.Join(dir, "doc.pdf")
 	switch c.File {
@@ -705,6 +725,14 @@ func genCase(t *rapid.T) Case {
 		for p := 1; p <= c.NPages; p++ {
 			if rapid.IntRange(0, 2).Draw(t, "blank") == 0 && len(c.Blank) < c.NPages-1 {
 				c.Blank = append(c.Blank, p)
+			}
+		}
+	}
+	if c.NPages >= 2 && rapid.IntRange(0, 3).Draw(t, "hasTwoCol") == 0 {
+		isBlank := c.blank()
+		for p := 1; p <= c.NPages; p++ {
+			if !isBlank[p] && rapid.IntRange(0, 2).Draw(t, "twoCol") == 0 && len(c.TwoCol) < c.NPages-1 {
+				c.TwoCol = append(c.TwoCol, p)
 			}
 		}
 	}
